@@ -5,6 +5,9 @@ package rtrefresh
 // Contracts for the routing-table refresh manager (properties C12, C14). Comment-only.
 
 /*@
+immutable field RtRefreshManager.refreshInterval
+immutable field RtRefreshManager.successfulOutboundQueryGracePeriod
+immutable field RtRefreshManager.refreshQueryTimeout
 # liveness probe of one member: it is removed exactly when connecting or the
 # probe request failed (whatever the reason, including the probe timeout)
 funclit 0 in (r *RtRefreshManager) pingAndEvictPeers(ctx context.Context)
@@ -30,8 +33,19 @@ func (r *RtRefreshManager) Close() error
 # C12: every refresh request the loop has accepted gets its answer - the loop
 # never leaves (not even at shutdown) while it holds response channels it has
 # not answered. ($col / $ans: response channels collected / answered.)
+# every member whose last successful outbound query is older than the grace
+# period gets one liveness probe (and only those), and the pass waits for all probes
 func (r *RtRefreshManager) pingAndEvictPeers(ctx context.Context)
+  props C12 C14
+  ghostvar $age time.Duration = 0
+  ghostvar $n int = 0
   modifies *
+  ensures [waits-for-every-probe] tagged("wgwait:wg")
+  loop 0 invariant peersChecked == $n && wgcount(wg) == $n
+  ghost at before call(Since): assert($arg0 == ps.LastSuccessfulOutboundQueryAt)
+  ghost at call(Since): $age = $ret0
+  ghost at go(func): assert($arg0 == ps && $age > r.successfulOutboundQueryGracePeriod); $n = $n + 1
+  ghost at continue: assert($age <= r.successfulOutboundQueryGracePeriod)
 func (r *RtRefreshManager) doRefresh(ctx context.Context, forceRefresh bool) error
   modifies *
 
@@ -70,4 +84,51 @@ func NewRtRefreshManager(h host.Host, rt *kbucket.RoutingTable, autoRefresh bool
   ensures [request-channel-unbuffered] result1 == nil && result0 != nil && result0.triggerRefresh != nil && cap(result0.triggerRefresh) == 0
   ensures [functions-installed] result0.refreshQueryFnc == refreshQueryFnc && result0.refreshPingFnc == refreshPingFnc && result0.refreshKeyGenFnc == refreshKeyGenFnc && result0.rt == rt && result0.enableAutoRefresh == autoRefresh
   ensures [timing-installed] result0.refreshQueryTimeout == refreshQueryTimeout && result0.refreshInterval == refreshInterval && result0.successfulOutboundQueryGracePeriod == successfulOutboundQueryGracePeriod
+
+# a bucket is refreshed exactly when its last refresh is older than the interval
+func (r *RtRefreshManager) refreshCplIfEligible(ctx context.Context, cpl uint, lastRefreshedAt time.Time) error
+  props C12
+  ghostvar $age time.Duration = 0
+  ghostvar $did bool = false
+  ghostvar $err error = nil
+  modifies *
+  ensures [refreshed-iff-stale] $did == ($age > r.refreshInterval) && imp($did, result == $err) && imp(!$did, result == nil)
+  ghost at before call(Since): assert($arg0 == lastRefreshedAt)
+  ghost at call(Since): $age = $ret0
+  ghost at before call(refreshCpl): assert($arg1 == cpl && ctxRoot($arg0) == old(ctxRoot(ctx)))
+  ghost at call(refreshCpl): $did = true; $err = $ret0
+
+role refreshKeyGenFnc(cpl uint) (string, error) in (r *RtRefreshManager) refreshCpl(ctx context.Context, cpl uint) error
+  pure
+role refreshQueryFnc(ctx context.Context, key string) error in (r *RtRefreshManager) runRefreshDHTQuery(ctx context.Context, key string) error
+  modifies *
+
+# the bucket's refresh runs the lookup for the key generated for THAT bucket
+func (r *RtRefreshManager) refreshCpl(ctx context.Context, cpl uint) error
+  props C12
+  ghostvar $key string = ""
+  ghostvar $kerr error = nil
+  ghostvar $qerr error = nil
+  ghostvar $q bool = false
+  modifies *
+  ensures [error-is-reported] imp($kerr != nil || ($q && $qerr != nil), result != nil) && imp($kerr == nil && $q && $qerr == nil, result == nil)
+  ghost at before call(refreshKeyGenFnc): assert($arg0 == cpl)
+  ghost at call(refreshKeyGenFnc): $key = $ret0; $kerr = $ret1
+  ghost at before call(runRefreshDHTQuery): assert($arg1 == $key && $kerr == nil && ctxRoot($arg0) == old(ctxRoot(ctx)))
+  ghost at call(runRefreshDHTQuery): $qerr = $ret0; $q = true
+
+func (r *RtRefreshManager) queryForSelf(ctx context.Context) error
+  props C12
+  modifies *
+  ghost at before call(runRefreshDHTQuery): assert($arg1 == str(r.dhtPeerId) && ctxRoot($arg0) == old(ctxRoot(ctx)))
+
+# a refresh lookup that merely ran into ITS OWN timeout counts as done; any
+# other error is reported
+func (r *RtRefreshManager) runRefreshDHTQuery(ctx context.Context, key string) error
+  props C12
+  ghostvar $err error = nil
+  modifies *
+  ensures [only-own-timeout-is-forgiven] imp($err == nil, result == nil) && imp(result == nil && $err != nil, $err == context.DeadlineExceeded)
+  ghost at before call(refreshQueryFnc): assert($arg1 == key && $arg0 == queryCtx)
+  ghost at call(refreshQueryFnc): $err = $ret0
 @*/
